@@ -5,6 +5,7 @@ import (
 	"encoding/binary"
 	"fmt"
 	"io"
+	"math/rand"
 	"net"
 	"sync"
 	"syscall"
@@ -179,26 +180,86 @@ func (s *server) stop() {
 	s.mu.Unlock()
 }
 
-// fixedRegistry is the registry of the harness: it always answers with the same endpoints.
-type fixedRegistry struct {
-	eps []endpointf.EndpointF
+// scriptedRegistry is the registry of one behaviour.  The manager's own refresher (globalManager.updateEndpoints ->
+// doFresh -> refreshEndpoints, one goroutine for all managers of the process, on a short ticker) asks it again and again;
+// it answers with the lists the behaviour has set last: every answer is a fresh copy in a random order (a registry owes
+// nobody an order; the manager sorts by host).  While the lists stay the same the refresher finds "endpoint not change",
+// so refreshes happen where the behaviour has a Refresh step, through the production path.
+type scriptedRegistry struct {
+	mu      sync.Mutex
+	servers []*server
+	act     []endpointf.EndpointF
+	inact   []endpointf.EndpointF
+	queries int
+	rev     int32 // the weight every endpoint of the answers carries (weights are not in use -- weight type 0 --, but an answer with
+	// another weight is not the installed list: the manager goes through the whole refresh although the endpoints are the same)
+	rng  *rand.Rand
+	dead bool
 }
 
-var _ registry.Registrar = (*fixedRegistry)(nil)
+var _ registry.Registrar = (*scriptedRegistry)(nil)
 
-func (r *fixedRegistry) Registry(context.Context, *registry.ServantInstance) error   { return nil }
-func (r *fixedRegistry) Deregister(context.Context, *registry.ServantInstance) error { return nil }
-func (r *fixedRegistry) QueryServant(context.Context, string) ([]registry.Endpoint, []registry.Endpoint, error) {
-	return append([]endpointf.EndpointF(nil), r.eps...), nil, nil
+func (r *scriptedRegistry) Registry(context.Context, *registry.ServantInstance) error   { return nil }
+func (r *scriptedRegistry) Deregister(context.Context, *registry.ServantInstance) error { return nil }
+func (r *scriptedRegistry) QueryServant(context.Context, string) ([]registry.Endpoint, []registry.Endpoint, error) {
+	r.mu.Lock()
+	defer r.mu.Unlock()
+	r.queries++
+	a := append([]endpointf.EndpointF(nil), r.act...)
+	var i []endpointf.EndpointF
+	if len(r.inact) > 0 {
+		i = append(i, r.inact...)
+	}
+	if !r.dead {
+		r.rng.Shuffle(len(a), func(x, y int) { a[x], a[y] = a[y], a[x] })
+		r.rng.Shuffle(len(i), func(x, y int) { i[x], i[y] = i[y], i[x] })
+	}
+	return a, i, nil
 }
-func (r *fixedRegistry) QueryServantBySet(ctx context.Context, id, _ string) ([]registry.Endpoint, []registry.Endpoint, error) {
+func (r *scriptedRegistry) QueryServantBySet(ctx context.Context, id, _ string) ([]registry.Endpoint, []registry.Endpoint, error) {
 	return r.QueryServant(ctx, id)
 }
 
-func registryFor(servers []*server) *fixedRegistry {
-	r := &fixedRegistry{}
-	for _, s := range servers {
-		r.eps = append(r.eps, endpointf.EndpointF{Host: s.host, Port: s.port, Timeout: 3000, Istcp: endpoint.TCP})
+func (r *scriptedRegistry) epf(e int) endpointf.EndpointF {
+	s := r.servers[e-1]
+	return endpointf.EndpointF{Host: s.host, Port: s.port, Timeout: 3000, Istcp: endpoint.TCP, Weight: r.rev}
+}
+
+// answer sets what the registry says from now on (model endpoint numbers; newWeight: the endpoints carry another weight than in
+// every answer before) and returns the number of queries answered before.
+func (r *scriptedRegistry) answer(active, inactive []int, newWeight bool) int {
+	r.mu.Lock()
+	defer r.mu.Unlock()
+	if newWeight && len(active) > 0 {
+		// (an empty answer has no endpoint to carry a weight, and it is not installed: the next answer is compared with the list
+		// installed before it)
+		r.rev++
 	}
+	r.act, r.inact = nil, nil
+	for _, e := range active {
+		r.act = append(r.act, r.epf(e))
+	}
+	for _, e := range inactive {
+		r.inact = append(r.inact, r.epf(e))
+	}
+	return r.queries
+}
+
+func (r *scriptedRegistry) asked() int {
+	r.mu.Lock()
+	defer r.mu.Unlock()
+	return r.queries
+}
+
+// retire: the behaviour is over; the manager stays registered with the process-wide refresher for good, so the answers become cheap.
+func (r *scriptedRegistry) retire() {
+	r.mu.Lock()
+	r.dead = true
+	r.mu.Unlock()
+}
+
+func registryFor(servers []*server, reg0 []int, seed int64) *scriptedRegistry {
+	r := &scriptedRegistry{servers: servers, rng: rand.New(rand.NewSource(seed))}
+	r.answer(reg0, nil, false)
 	return r
 }
